@@ -387,6 +387,21 @@ def as_slist(c, v, node=None):
     raise Unsupported('list of oids expected, got %r' % (v,), node)
 
 
+def roots_bag(c, v, node=None):
+    """multiset view of a list of oids (symbolic list: its ghost; python-side list: built here)"""
+    if isinstance(v, VRef):
+        o = c.obj(v)
+        if o.kind == 'slist' and 'bag' in o.f:
+            return o.f['bag']
+        if o.kind == 'list' and 'items' in o.meta:
+            bag = z3.K(I, z3.IntVal(0))
+            for it in o.meta['items']:
+                k = bytes_num(c, it)
+                bag = z3.Store(bag, k, z3.Select(bag, k) + 1)
+            return bag
+    raise Unsupported('list of oids expected, got %r' % (v,), node)
+
+
 class FindReachableAtPacktime(GCSpec):
     """worklist closure: afterwards every root is kept, every newly kept object is kept at its
     revision current at the pack time and all references of that revision are kept objects;
@@ -419,7 +434,9 @@ class FindReachableAtPacktime(GCSpec):
         R = c.obj(w.reachable).f
         cur = c.obj(w.cur).f
         rarr, rlen = as_slist(c, E['roots'])
+        rbag = roots_bag(c, E['roots'])
         c.roles.array(rarr, 'idx')
+        c.roles.array(rbag, 'oid') if z3.is_const(rbag) else None
         dom, val = R['dom'], R['val']
 
         def newly(o):
@@ -446,6 +463,9 @@ class FindReachableAtPacktime(GCSpec):
                 newly(o), z3.And(sel(cur['dom'], o), sel(val, o) == sel(cur['val'], o))))),
             ('references-of-new-entries-are-kept', All(['oid', 'idx'], closure)),
             ('roots-are-kept', All(['idx'], root_ok)),
+            ('roots-are-kept.by-membership', All(['oid'], lambda o: z3.Implies(
+                sel(rbag, o) >= 1, z3.Or(sel(dom, o), z3.And(o == 0, w.csz == 0),
+                                         (sel(bag, o) >= 1) if bag is not None else False)))),
         ]
 
     @property
@@ -662,6 +682,32 @@ class FindReachableFromFuture(GCSpec):
         cc.roles.array(o.f['where'], 'pos')
         return r
 
+    def fut(self, cc, fr):
+        """multiset view of the local list future_refs"""
+        v = fr.locals.get('future_refs')
+        if isinstance(v, VRef):
+            o = cc.obj(v)
+            if o.kind == 'slist' and 'bag' in o.f:
+                return o.f['bag']
+            if o.kind == 'list' and o.meta.get('items') == []:
+                return z3.K(I, z3.IntVal(0))
+        return None
+
+    def fresh_fut(self, cc, fr):
+        r = prims.new_slist(cc, 'bytes8', 'future_refs', bag=True)
+        bag = cc.obj(r).f['bag']
+        cc.roles.array(bag, 'oid')
+        cc.assume(All(['oid'], lambda x: z3.Select(bag, x) >= 0))     # list model: counts
+        return r
+
+    def own_refs_queued(self, cc, w, bagF, upto):
+        """every reference of a record with its own data in [packpos, upto) is in future_refs"""
+        lt = w.later
+        sel = z3.Select
+        return All(['pos', 'idx'], lambda p, i: z3.Implies(
+            z3.And(sel(lt.rec, p), p >= w.pp, p < upto, w.R.plen(p) != 0, i >= 0, i < w.OWNL(p)),
+            sel(bagF, sel(w.OWNA(p), i)) >= 1))
+
     def handled(self, cc, w, p):
         e = eb(w, p)
         return z3.Implies(z3.And(e != 0, e < w.pp), kept(cc, w, w.R.oid(p), e))
@@ -681,8 +727,12 @@ class FindReachableFromFuture(GCSpec):
         if xr is None:
             return [('extra_roots-is-a-list', False)]
         arr, ln, where = xr
+        bagF = self.fut(cc, fr)
+        if bagF is None:
+            return [('future_refs-is-a-list', False)]
         queued = lambda p: z3.And(sel(where, p) >= 0, sel(where, p) < ln, sel(arr, sel(where, p)) == p)
         return [
+            ('references-of-later-records-are-queued', self.own_refs_queued(cc, w, bagF, upto)),
             ('file-untouched', z3.And(fo['arr'] == w.A, fo['size'] == w.n)),
             ('seen-records-handled', All(['pos'], lambda p: z3.Implies(
                 z3.And(sel(lt.rec, p), p >= w.pp, p < upto), self.handled(cc, w, p)))),
@@ -709,6 +759,7 @@ class FindReachableFromFuture(GCSpec):
         def havoc_scan(cc, fr):
             self.havoc(cc, cc.E)
             fr.locals['extra_roots'] = self.fresh_xr(cc, fr)
+            fr.locals['future_refs'] = self.fresh_fut(cc, fr)
 
         def inv0(cc, fr):
             w = self.w(cc, cc.E)
@@ -802,6 +853,12 @@ class FindReachableFromFuture(GCSpec):
                 ('keep-closed.extra', All(['oid', 'pos', 'idx'], lambda o, p, i: z3.Implies(
                     sel(sel(mem, o), p),
                     z3.And(sel(dom, o), sel(w.vrec, p), closed(w, p, dom)(i))))),
+                # KEEP-FUTURE: an object that existed at the pack time and is referenced by a record
+                # written after it is kept (garbage as of the pack time can be referenced again)
+                ('keep-future', All(['pos', 'idx'], lambda p, i: z3.Implies(
+                    z3.And(sel(lt.rec, p), p >= w.pp, p < w.eof.t, w.R.plen(p) != 0, i >= 0,
+                           i < w.OWNL(p), sel(cc.obj(w.cur).f['dom'], sel(w.OWNA(p), i))),
+                    sel(dom, sel(w.OWNA(p), i))))),
             ]
         return [Outcome('done', result=lambda cc, E: NONE, post=post),
                 Outcome('dangling-reference', 'raise', KeyError_),
@@ -1058,6 +1115,10 @@ class FindReachable(GCSpec):
                 ('keep-closed.extra', All(['oid', 'pos', 'idx'], lambda o, p, i: z3.Implies(
                     sel(sel(mem, o), p),
                     z3.And(sel(dom, o), sel(w.vrec, p), closed(w, p, dom)(i))))),
+                ('keep-future', All(['pos', 'idx'], lambda p, i: z3.Implies(
+                    z3.And(sel(lt.rec, p), p >= w.pp, p < w.eof.t, w.R.plen(p) != 0, i >= 0,
+                           i < w.OWNL(p), sel(cur['dom'], sel(w.OWNA(p), i))),
+                    sel(dom, sel(w.OWNA(p), i))))),
             ]
         return [Outcome('done', result=lambda cc, E: NONE, post=post),
                 Outcome('redundant', 'raise', REDUNDANT),
